@@ -308,8 +308,13 @@ CallKey(e) == <<e.op, e.n, [i \in 1..Len(Positions(e)) |->
 Memoisable(e) == e.op \notin {"Buf.Set", "Buf.Scribble", "Elem.Inject"} /\ e.panic = 0
 \* the result is compared up to the names of the written registers
 ResShape(e) == <<e.err, e.panic, e.out,
-                 IF e.recv = "" THEN <<>> ELSE AbsObj(e.recv, e.post[e.recv]),
-                 [i \in 1..Len(e.outs) |-> AbsObj(e.outs[i], e.post[e.outs[i]])]>>
+                 \* (a failed setter leaves the receiver as it was: its contents are then not a result of the call)
+                 IF e.recv = "" \/ e.err = 1 THEN <<>> ELSE AbsObj(e.recv, e.post[e.recv]),
+                 \* (ExtendedCoordinates returns a representation: its abstract result is the point it stands for)
+                 IF e.op = "Point.ExtendedCoordinates"
+                 THEN LET q == P3(EV(e.post[e.outs[1]]), EV(e.post[e.outs[2]]), EV(e.post[e.outs[3]]), EV(e.post[e.outs[4]]))
+                      IN  <<IF ValidP3(q) THEN BNToBytes(AbsP3(q).x, 32) \o BNToBytes(AbsP3(q).y, 32) ELSE <<-3>> >>
+                 ELSE [i \in 1..Len(e.outs) |-> AbsObj(e.outs[i], e.post[e.outs[i]])]>>
 Purity(e) == IF Memoisable(e) /\ CallKey(e) \in DOMAIN memo
              THEN C("C19", "pure.history", memo[CallKey(e)] = ResShape(e)) ELSE {}
 
